@@ -1,5 +1,6 @@
 import Driver.Common
 import IoraModel.Model.WsServer
+import IoraModel.Model.WsClient
 namespace Iora.Driver.Ws
 open Iora Iora.Ws Iora.Driver
 
@@ -20,9 +21,27 @@ def showEv : Ev → String
 def showEvs (evs : List Ev) : String :=
   if evs.isEmpty then "-" else ";".intercalate (evs.map showEv)
 
+def showCEv : CEv → String
+  | .text bs => s!"T:{toHex bs}"
+  | .binary bs => s!"B:{toHex bs}"
+  | .sent op fin pl => s!"S:{op}:{bit fin}:{toHex pl}"
+  | .onClose c r => s!"C:{c}:{toHex r}"
+  | .onError => "E"
+
+def showCEvs (evs : List CEv) : String :=
+  if evs.isEmpty then "-" else ";".intercalate (evs.map showCEv)
+
 structure St where
   maxFrame : Nat := 16777216
   sess : Sess := {}
+  cli : CSess := {}
+
+def showCSt (s : CSess) : String :=
+  s!"buf={s.buffer.length} connected={bit s.connected} closeSent={bit s.closeSent} failed={bit s.protocolFailed}"
+
+def stepCli (st : St) (op : COp) : St × String :=
+  let (s', evs) := cStep st.cli op
+  ({ st with cli := s' }, s!"{showCEvs evs} | {showCSt s'}")
 
 def showSt (s : Sess) : String :=
   s!"buf={s.buffer.length} alive={bit s.alive} closeSent={bit s.closeSent}"
@@ -47,7 +66,7 @@ def step (st : St) : List String → St × String
     | none => (st, "bad-op")
   | ["srv", "reset", max] =>
     match max.toNat? with
-    | some m => ({ maxFrame := m, sess := {} }, "ok")
+    | some m => ({ st with maxFrame := m, sess := {} }, "ok")
     | none => (st, "bad-op")
   | ["srv", "data", hx] =>
     match ofHex hx with
@@ -68,6 +87,27 @@ def step (st : St) : List String → St × String
   | ["srv", "sendClose", code, hx] =>
     match code.toNat?, ofHex hx with
     | some c, some d => stepOp st (.sendClose c d)
+    | _, _ => (st, "bad-op")
+  | ["cli", "reset"] => ({ st with cli := {} }, "ok")
+  | ["cli", "data", hx] =>
+    match ofHex hx with
+    | some d => stepCli st (.data d)
+    | none => (st, "bad-op")
+  | ["cli", "sendText", hx] =>
+    match ofHex hx with
+    | some d => stepCli st (.sendText d)
+    | none => (st, "bad-op")
+  | ["cli", "sendBinary", hx] =>
+    match ofHex hx with
+    | some d => stepCli st (.sendBinary d)
+    | none => (st, "bad-op")
+  | ["cli", "sendPing", hx] =>
+    match ofHex hx with
+    | some d => stepCli st (.sendPing d)
+    | none => (st, "bad-op")
+  | ["cli", "sendClose", code, hx] =>
+    match code.toNat?, ofHex hx with
+    | some c, some d => stepCli st (.sendClose c d)
     | _, _ => (st, "bad-op")
   | _ => (st, "bad-op")
 
